@@ -91,6 +91,10 @@ mod misc {
             };
 
             story.reset_globals()?;
+            // Warnings raised while the global declarations ran belong to the first
+            // continue of the host, like the version warning below (and as after
+            // reset_state()): they are not dropped when that continue begins.
+            story.warnings_left_readable = false;
             story.warn_if_ink_version_differs();
 
             Ok(story)
